@@ -122,8 +122,9 @@ class StoreWalk:
 _CACHE: Dict[tuple, List[StoreWalk]] = {}
 
 
-def walks(p: Project, assume_inv=('I1',), unroll: int = 2) -> List[StoreWalk]:
+def walks(p: Project, assume_inv=('I1',), unroll: int = None) -> List[StoreWalk]:
     assume_inv = tuple(assume_inv or ())
+    unroll = unroll if unroll is not None else paths.DEFAULT_UNROLL
     cache = p.__dict__.setdefault('_storewalk_cache', {})
     key = (assume_inv, unroll)
     if key not in cache:
